@@ -843,6 +843,10 @@ func (e *Exec) eval(fr *frame, in ssa.Value) Value {
 	case *ssa.MakeSlice:
 		l := e.val(fr, in.Len).(VInt).T
 		c := e.val(fr, in.Cap).(VInt).T
+		if !intMode {
+			l = Resize(l, 64, isSigned(in.Len.Type()))
+			c = Resize(c, 64, isSigned(in.Cap.Type()))
+		}
 		if !l.Const || !c.Const {
 			// concretise a symbolic size by forking over 0..bound; larger sizes are outside the bound
 			same := in.Len == in.Cap
